@@ -51,6 +51,9 @@ def run(prog, rep, tier, cfg):
     rep.not_decided = 'the sum over all actors along histories (FVM transfer semantics are trusted); the arithmetic of amounts'
     # ---- 1. inventory of value-carrying sends
     inv = inventory(prog)
+    from props import c05 as _c05
+    nx = sendsmod.exit_code_rule(X, rep, [s for s in sendsmod.all_sends(prog) if not s.zero_value()], _c05.RAW_RESPONSE)
+    rep.floor('K8', 'value_send_sites_exit_code', nx, json.load(open(TABLE))['floor'])
     table = json.load(open(TABLE))['sends']
     rep.floor('K5', 'value_carrying_send_sites', sum(len(v) for v in inv.values()), json.load(open(TABLE))['floor'])
     for key, rows in sorted(inv.items()):
